@@ -46,7 +46,7 @@ class Job:
     def __init__(self, name, source_text, entry, enforce=None, enforce_rec=None, replace=(),
                  loop_contracts=True, cbmc_flags=(), cc_flags=(), timeout=900,
                  expect_fail=(), backend="cbmc-sat-contracts", note="", bounded=None,
-                 must_have=(), nondet_static=False, split=0, split_procs=None, unwind_fns=(), unwind_by_line=None):
+                 must_have=(), nondet_static=False, split=0, split_procs=None, unwind_fns=(), unwind_by_line=None, only=None):
         self.name = name; self.source_text = source_text; self.entry = entry
         self.enforce = enforce; self.enforce_rec = enforce_rec; self.replace = list(replace)
         self.loop_contracts = loop_contracts; self.cbmc_flags = list(cbmc_flags)
@@ -55,7 +55,7 @@ class Job:
         self.backend = backend; self.note = note; self.bounded = bounded
         self.must_have = list(must_have)          # obligation-name regexes that must be present (e.g. loop_invariant_step)
         self.nondet_static = nondet_static
-        self.split = split; self.split_procs = split_procs or NCORES; self.unwind_fns = list(unwind_fns); self.unwind_by_line = unwind_by_line
+        self.split = split; self.split_procs = split_procs or NCORES; self.unwind_fns = list(unwind_fns); self.unwind_by_line = unwind_by_line; self.only = only
         self.check_flags = ["--bounds-check", "--pointer-check", "--signed-overflow-check", "--div-by-zero-check",
                             "--pointer-overflow-check"]
         # results
@@ -122,7 +122,7 @@ class Job:
             if not us:
                 self.status = "error"; self.reason = "no loop found to unwind for %s" % self.unwind_fns; return self._fin(log, t0)
             flags += ["--unwindset", ",".join(us)]
-        if self.split and self.split > 1:
+        if (self.split and self.split > 1) or self.only:
             out, rc = self._run_split(d, cur, flags, log)
         else:
             rc, out = step("cbmc %s %s" % (" ".join(flags), cur), self.timeout)
@@ -149,9 +149,11 @@ class Job:
             names = [p["name"] for e in js if isinstance(e, dict) and "properties" in e for p in e["properties"]]
         except Exception:
             log.append(out[-3000:]); return out, 1
+        if self.only:
+            names = [n for n in names if re.search(self.only, n)]      # obligation subset (stated in the job's note)
         if not names:
             log.append("no properties"); return out, 1
-        k = min(self.split, len(names))
+        k = max(1, min(self.split or 1, len(names)))
         chunks = [names[i::k] for i in range(k)]
         def one(idx):
             assert all(re.match(r"^[\w.$:-]+$", n) for n in chunks[idx]), "odd property name"
